@@ -706,18 +706,24 @@ def run_shard(spec, ctx):
     machine = make_machine(ctx.col, spec, types, _key_error_class(),
                            samples=1 if spec in ("FrameSize", "ParseInfo", "State", "VideoParameters", "CodecFeatures",
                                                  "Padding", "HQSlice", "SequenceHeader") else 0)
-    run_state_machine_as_test(
-        seed(ctx.seed)(machine),
-        settings=settings(
-            max_examples=ctx.pick(150, 8000),
-            stateful_step_count=ctx.pick(25, 30),
-            deadline=None,
-            database=None,
-            phases=[Phase.generate],
-            suppress_health_check=list(HealthCheck),
-            print_blob=False,
-        ),
-    )
+    total = ctx.pick(150, 6000)
+    j = 0
+    while total > 0:
+        n = min(2000, total)
+        total -= n
+        run_state_machine_as_test(
+            seed(ctx.seed + 104729 * j)(machine),
+            settings=settings(
+                max_examples=n,
+                stateful_step_count=ctx.pick(25, 30),
+                deadline=None,
+                database=None,
+                phases=[Phase.generate],
+                suppress_health_check=list(HealthCheck),
+                print_blob=False,
+            ),
+        )
+        j += 1
 
 
 def replay(data, col):
